@@ -79,7 +79,7 @@ def punct (k : TokKind) : Bool :=
 
 theorem PWc_punct (c : UInt8) (k : TokKind) (h : single c = some k) (hk : punct k = true) : PWc [(k, [c])] [c] := by
   intro ks' rest hr
-  have hg : Genuine (k, [c]) := ⟨by simp [one, h], by intro hk'; have hk'' : k = .bracket_comment := hk'; rw [hk''] at hk; simp [punct] at hk⟩
+  have hg : Genuine (k, [c]) := by simp [Genuine, one, h]
   have hsep : Lex.Sep k rest := by cases k <;> simp_all [Lex.Sep, punct]
   have := SWeave.cons [] (by intro x hx; simp at hx) k [c] ks' rest hg hsep hr
   simpa using this
@@ -224,7 +224,7 @@ theorem stringEnd_last (t : Bytes) (n : Nat) (h : stringEnd t = some n) : (t.tak
 
 /-- a string token is a quoted string: it is printed verbatim as a list item -/
 theorem renderItem_string (v : Bytes) (h : Genuine (.string, v)) : renderItem v = v ∧ v.head? = some 34 := by
-  obtain ⟨rest, m, rfl, hm, hn⟩ := one_string _ _ h.1
+  obtain ⟨rest, m, rfl, hm, hn⟩ := one_string _ _ h
   have hlast := stringEnd_last _ _ hm
   have hml : m = rest.length := by simp at hn; omega
   rw [hml, List.take_length] at hlast
@@ -242,7 +242,7 @@ theorem renderItem_string (v : Bytes) (h : Genuine (.string, v)) : renderItem v 
   simp [h3, hne]
 
 theorem multiline_head (v : Bytes) (h : Genuine (.multiline, v)) : v.head? = some 116 := by
-  obtain ⟨r, hr⟩ := (isText_iff _).mp (one_multiline _ _ h.1)
+  obtain ⟨r, hr⟩ := (isText_iff _).mp (one_multiline _ _ h)
   have : (TokKind.multiline, v).2 = v := rfl
   rw [this] at hr; rw [hr]; rfl
 
@@ -253,7 +253,7 @@ def kindOf (v : Bytes) : TokKind :=
   | none => .string
 
 theorem kindOf_genuine (k : TokKind) (v : Bytes) (h : Genuine (k, v)) : kindOf v = k := by
-  have : one v = some (k, v.length) := h.1
+  have : one v = some (k, v.length) := h
   simp [kindOf, this]
 
 /-! ## the token sequence of a tree -/
@@ -468,13 +468,11 @@ theorem tokArg_genuine {TokP : Tok → Prop} (hG : ∀ tok, TokP tok → GTok to
     ∃ k, Genuine (k, v) ∧ k ≠ .hash_comment ∧ (k = .multiline → t = .string) := by
   obtain ⟨tok, htok, hv, hk⟩ := h
   have hg := hG tok htok
-  have hnb : tok.kind ≠ .bracket_comment := by
-    rcases hk with ⟨h1 | h1, _⟩ | ⟨h1, _⟩ | ⟨h1, _⟩ <;> rw [h1] <;> simp
   have hnh : tok.kind ≠ .hash_comment := by
     rcases hk with ⟨h1 | h1, _⟩ | ⟨h1, _⟩ | ⟨h1, _⟩ <;> rw [h1] <;> simp
   refine ⟨tok.kind, ?_, hnh, ?_⟩
-  · have := hg hnb
-    simpa [kt, hv] using this
+  · have := hg
+    simpa [GTok, kt, hv] using this
   · intro hm
     rcases hk with ⟨_, h2⟩ | ⟨h1, _⟩ | ⟨h1, _⟩
     · exact h2
@@ -538,8 +536,8 @@ theorem items_genuine {TokP : Tok → Prop} (hG : ∀ tok, TokP tok → GTok tok
     ∀ x ∈ l, Genuine (.string, x) := by
   intro x hx
   obtain ⟨tok, htok, hk, ht⟩ := h x hx
-  have := hG tok htok (by rw [hk]; simp)
-  simpa [kt, hk, ht] using this
+  have := hG tok htok
+  simpa [GTok, kt, hk, ht] using this
 
 /-- a string list is printed as its items between brackets -/
 theorem strs_pw {TokP : Tok → Prop} {T : Table} (C : Ctx TokP T) (d : CmdDef) (i : Nat) (e : Bool) (k : String)
@@ -612,7 +610,8 @@ theorem node_pw {TokP : Tok → Prop} {T : Table} (C : Ctx TokP T) : ∀ (n : No
         have r2 := args_pw C d' hd extra i true re hE hre
         obtain ⟨hasm, hash⟩ := assemble_pw d'.args ra re _ _ r1 r2
         have hname_tok : PW [(TokKind.identifier, name)] name := by
-          refine PW_tok .identifier name ⟨?_, by simp⟩ (by simp) (by simp)
+          refine PW_tok .identifier name ?_ (by simp) (by simp)
+          show one name = some (TokKind.identifier, name.length)
           rw [← hname]; exact hdl.1.1
         have hhead : PW ((TokKind.identifier, name) :: asm d'.args (flatAs T d' false args) (flatAs T d' true extra))
             (spaces i ++ name ++ assemble d'.args ra re) := by
